@@ -35,11 +35,12 @@ PREFIX_FAMILIES = [
     ("C01.core_verify", ["sig_complete", "sig_binding"]), ("C01.verify", ["sig_complete", "sig_binding"]), ("C01.", ["sig_complete"]),
     ("C02.", ["sig_binding"]), ("C10.core_sign", ["sig_complete"]), ("C10.sign", ["sig_complete"]),
     ("C03.", ["proof_complete"]), ("C04.proof_verify", ["proof_sound", "proof_complete", "forgery"]), ("C04.", ["proof_sound", "forgery"]),
-    ("C05.", ["blind_complete"]), ("C06.", ["blind_sound"]), ("C07.", ["fresh"]), ("C12.", ["update_history", "update_signature"]),
+    ("C05.cverify", ["blind_sound", "blind_complete"]), ("C05.validate", ["blind_sound", "blind_complete"]), ("C05.bverify", ["blind_sound", "blind_complete"]),
+    ("C05.blind_proof_verify", ["blind_sound", "blind_complete"]), ("C05.", ["blind_complete"]), ("C06.", ["blind_sound"]), ("C07.", ["fresh"]), ("C12.", ["update_history", "update_signature"]),
     ("C10.domain", ["sig_complete", "proof_complete"]), ("C10.h2s", ["sig_complete"]), ("C10.challenge", ["proof_complete", "proof_sound"]),
-    ("C10.blind_challenge", ["blind_complete", "blind_sound"]), ("C10.generators", ["sig_complete", "blind_complete"]),
+    ("C10.blind_challenge", ["blind_complete", "blind_sound"]), ("C10.generators", ["generators", "sig_complete", "blind_complete"]),
     ("C10.msgs_to_scalars", ["sig_complete", "sig_binding"]), ("C10.map_msg", ["update_history"]), ("C10.", ["sig_complete", "proof_complete"]),
-    ("C11.", ["sig_binding", "proof_sound"]),
+    ("C11.", ["generators", "sig_binding", "proof_sound"]),
 ]
 FN_FAMILIES = [
     ("blind_proof", ["blind_complete", "blind_counts"]), ("blind", ["blind_complete", "blind_sound"]), ("commit", ["blind_complete", "blind_sound"]),
